@@ -141,7 +141,7 @@ func (g *sysGen) idx(kind string) string {
 }
 
 func (g *sysGen) val() string {
-	return g.pick("x", "v2", "'a b'", "\"\"", "$s1", "\"$s1$s2\"", "$(echo cs)", "${s2:-d}", "1", "07", "\"${a[0]}\"", "${#a[@]}", "$((2+3))", "x{1,2}", "~", "*", "\"q r\"")
+	return g.pick("x", "v2", "'a b'", "\"\"", "$s1", "\"$s1$s2\"", "$(echo cs)", "${s2:-d}", "1", "07", "\"${a[0]}\"", "${#a[@]}", "$((2+3))", "x{1,2}", "~", "/home/d1/*.sh", "\"q r\"")
 }
 
 func (g *sysGen) words(n int) string {
@@ -187,7 +187,7 @@ func (g *sysGen) core() string {
 	}
 	v := g.name()
 	n, k := v.n, v.kind
-	switch g.r.Intn(34) {
+	switch g.r.Intn(35) {
 	case 0:
 		return fmt.Sprintf("%s=%s", n, g.val())
 	case 1:
@@ -320,6 +320,7 @@ func (g *sysGen) core() string {
 		fn := g.pick("f1", "f2", "fnew", "f3")
 		return g.pick(
 			fmt.Sprintf("%s() { echo %s; }", fn, g.pick("changed", "$s1", "new-body")),
+			fmt.Sprintf("%s() { # about %s\n%s # trailing\n}\ndeclare -f %s >/dev/null", fn, fn, g.simpleAssign(), fn),
 			fmt.Sprintf("function %s { s2=by-%s; a[0]=by-%s; }", fn, fn, fn),
 			"unset -f "+fn, fn, fn+" arg", "declare -f "+fn+" >/dev/null", "unset "+fn,
 			fmt.Sprintf("%s() { local s1=in-%s; %s; }; %s", fn, fn, g.simpleAssign(), fn),
@@ -339,9 +340,16 @@ func (g *sysGen) core() string {
 	case 29:
 		return g.pick("set -- q1", "set --", "set -- x y z w", "shift", "shift 2", "shift 9", "shift 0", "set -- \"${@:2}\"", "set -- \"$@\" more", "set x y", "set - a b", "set -- -x", "set -o nounset -- p", "set +u -- $s1")
 	case 30:
-		return g.pick("exec 3</home/f1.txt", "exec 3>&-", "exec >/home/o.txt", "exec 2>&1", "exec </home/f2.txt", "exec 4>/home/o4.txt; echo x >&4", "exec 2>/dev/null",
+		return g.pick("true <&-", "{ :; } >&-", "f1 2>&-", "read x2 <&- 2>/dev/null", ": 3<&0 <&-", "exec 3</home/f1.txt", "exec 3>&-", "exec >/home/o.txt", "exec 2>&1", "exec </home/f2.txt", "exec 4>/home/o4.txt; echo x >&4", "exec 2>/dev/null",
 			"hash -r", "hash", "wait", "true & wait", "eval", "eval ''", "builtin cd /", "command cd /home/d2", "command -v f1 >/dev/null", "type -t f1 >/dev/null",
 			"[[ $s1 =~ ^(f)(o+) ]]", "[[ ab =~ (a)(b) ]]", "true | false | true", "false", "(exit 3)", "! true")
+	case 33:
+		// here-documents: reader x delimiter form x body with expansions
+		delim := g.pick("EOF", "'EOF'", "\"EOF\"", "\\EOF", "'E'OF", "\"E\"OF", "E\\OF", "EOF")
+		op := g.pick("<<", "<<", "<<-")
+		body := g.pick("$s1 ${a[0]} $(echo cs) $((1+2))", "${"+n+":=hd}", "plain text", "$s1\n$(echo l2)\n${s2:-d}", "`echo bq` \\$esc \\\\", "")
+		rdr := g.pick("cat >/dev/null", "read "+n, "while read l; do :; done", "mapfile -t "+n, "{ cat | cat; } >/dev/null", ": ", "read -r a1 b1", "f1", "{ read l1; read l2; }")
+		return fmt.Sprintf("%s %s%s\n%s\nEOF", rdr, op, delim, body)
 	case 31:
 		// statements that end the enclosing shell or loop early
 		return g.pick("exit", "exit 3", "return 2>/dev/null", "return 4 2>/dev/null", "break 2>/dev/null", "continue 2>/dev/null", "exit $?", "false || exit 5", "set -e; false", ": ${u9?unset-error}", "set -u; : $u9", "readonly rr=1; rr=2")
@@ -514,7 +522,7 @@ var c31Cores = []c31Core{
 	{"while true; do :; done", "nil"}, {"until false; do x=1; done", "nil"}, {"for ((;;)); do :; done", "nil"}, {"while :; do sleep 1; done", "nil"},
 	{"sleep 1000", "nil"}, {"sleep 1000 & wait", "nil"}, {"sleep 1000 & wait $!", "nil"}, {"sleep 1000 & wait g1", "nil"},
 	{"read x", "silent"}, {"read -a arr", "silent"}, {"mapfile lines", "silent"}, {"cat", "silent"}, {"cat | drain", "silent"}, {"while read l; do :; done", "silent"},
-	{"select o in a b; do :; done", "silent"}, {"read x < /dev/zero", "nil"}, {"mapfile -t ls < /dev/yes", "nil"}, {"while read l; do :; done < /dev/yes", "nil"}, {"stubborn", "nil"}, {"yes | drain", "nil"}, {"while :; do echo y; done | drain", "nil"}, {"sleep 1000 | cat", "nil"},
+	{"select o in a b; do :; done", "silent"}, {"read a & read b & read c & read d; wait", "silent"}, {"x=$(< /dev/zero)", "nil"}, {"cat < /dev/zero | drain", "nil"}, {"read x < /dev/zero", "nil"}, {"mapfile -t ls < /dev/yes", "nil"}, {"while read l; do :; done < /dev/yes", "nil"}, {"stubborn", "nil"}, {"yes | drain", "nil"}, {"while :; do echo y; done | drain", "nil"}, {"sleep 1000 | cat", "nil"},
 	{": <(echo hi); wait", "nil"}, {"echo <(echo hi) >/dev/null; wait", "nil"}, {"while true; do x=$(echo y); done", "nil"}, {"while true; do ( : ); done", "nil"},
 }
 
